@@ -61,6 +61,7 @@ def floors(tier):
         f["edit:" + e] = 100
     f["histories:len>=100"] = 1 if tier == "quick" else 200
     f["checks:deep"] = 5000
+    f["histories:register_index>=10"] = 20
     return f
 
 
@@ -259,6 +260,13 @@ def run_random(rng, lmax, ctx):
     n_e, n_p, n_c = int(rng.integers(0, 4)), int(rng.integers(0, 4)), int(rng.integers(0, 3))
     if n_e + n_p == 0:
         n_e = 1
+    if rng.random() < 0.12:
+        # register indices with two digits (edge keys such as "p11")
+        if rng.random() < 0.5:
+            n_p = int(rng.integers(11, 14))
+        else:
+            n_e = int(rng.integers(11, 14))
+        ctx.count("histories:register_index>=10")
     h = History(ctx, n_e, n_p, n_c)
     L = int(rng.integers(1, lmax + 1))
     for step in range(L):
